@@ -495,6 +495,10 @@ func c19Fidelity(c *core.Ctx, r *rng.R) *core.Result {
 		if t.strike && !x.strike {
 			res.Add("fidelity/format/strike-not-struck/"+ctx, fmt.Sprintf("struck %s is not carried by a strike run", t.tok), optNote, src)
 		}
+		// formatting must not leak either: a token carries exactly the formats of the spans that enclose it
+		if (t.em || t.strong || t.strike) && ((!t.em && x.italic) || (!t.strong && x.bold) || (!t.strike && x.strike)) {
+			res.Add("fidelity/format/extra-formatting/"+ctx+nestedCls(t), fmt.Sprintf("%s (em=%v strong=%v strike=%v) is carried by a run with bold=%v italic=%v strike=%v", t.tok, t.em, t.strong, t.strike, x.bold, x.italic, x.strike), optNote, src)
+		}
 		if !t.em && !t.strong && !t.strike && (x.bold || x.italic || x.strike) {
 			res.Add("fidelity/format/plain-text-formatted/"+ctx, fmt.Sprintf("plain %s is carried by a formatted run (bold=%v italic=%v strike=%v)", t.tok, x.bold, x.italic, x.strike), optNote, src)
 		}
@@ -729,7 +733,7 @@ func init() {
 		ID:    "C19",
 		Level: "exploration",
 		Rule: "two kinds of cases under every combination of {GFM, tables, task lists, math, footnotes, TOC} and TOC level 0-7. Totality (2 of 3 cases): hostile inputs (random runes, random bytes, 100-10000-deep >/*/[ nesting, pathological emphasis runs, wide/long tables, unterminated fences, deeply nested \\frac/\\sqrt, footnote loops, huge task lists, setext/ATX mixes, raw HTML/CDATA, hostile link/image targets, byte-mutated generated Markdown), written to disk before ConvertBytes; no panic, no hang (watchdog + isolated retry), result saves to a well-formed package; LaTeXToOMMLString -> AddMathFormula on the same inputs. " +
-			"Fidelity (1 of 3): Markdown printed from a block/inline tree (headings 1-6, paragraphs with emphasis/strong/code/strike/links/autolinks/nested emphasis/soft breaks, bullet/ordered/nested lists, task lists, block quotes, fenced and indented code, thematic breaks, tables with alignments) whose words are unique tokens: the document's token sequence equals the tree's, heading tokens sit in Heading<n> paragraphs, emphasis/strong/code/strike tokens are carried by italic/bold/code-font/strike runs, code blocks keep lines and indentation, tables keep dimensions, cell text and column alignment. Non-trivial: >=3 tokens (fidelity) / every totality input; distinct = options + input.",
+			"Fidelity (1 of 3): Markdown printed from a block/inline tree (headings 1-6, paragraphs with emphasis/strong/code/strike/links/autolinks/soft breaks and span trees (spans of different kinds nested up to three deep with text before, between and after the inner spans), bullet/ordered/nested lists, task lists, block quotes, fenced and indented code, thematic breaks, tables with alignments, also tables that consist of their header row only) whose words are unique tokens: the document's token sequence equals the tree's, heading tokens sit in Heading<n> paragraphs, every token is carried by a run with exactly the italic/bold/strike formats of the spans enclosing it (code: code font), code blocks keep lines and indentation, tables keep dimensions, cell text and column alignment. Non-trivial: >=3 tokens (fidelity) / every totality input; distinct = options + input.",
 		Cases: func(t string) int { return tierN(t, 4500, 400000) },
 		Run: func(c *core.Ctx) *core.Result {
 			r := caseRng(c)
@@ -739,7 +743,7 @@ func init() {
 			}
 			return c19Totality(c, r)
 		},
-		Assume:         []string{"whitespace, list glyphs and check-box glyphs the renderer adds, URLs of links, formula display conversion and block structure of nested list items are not compared", "run formatting inside table cells, list items and quotes is not compared (only text and order)"},
+		Assume:         []string{"whitespace, list glyphs and check-box glyphs the renderer adds, URLs of links, formula display conversion and block structure of nested list items are not compared", "run formatting inside table cells and of heading text is not compared (cells: dimensions, text and alignment; headings: the style)"},
 		CrashIsFinding: true,
 		CaseTimeoutS:   30,
 		MinNontrivial:  500,
